@@ -35,12 +35,12 @@ Proof.
   constructor; unfold accepted, popped, dropped in *; rewrite ?Q, ?M, ?Dr, ?P, ?O, ?R, ?W; assumption.
 Qed.
 
-Lemma prod_inv2 : forall i sh gh p w sh' gh' p' l, Inv2 sh gh w ->
-  prod_step i sh gh p = Some (sh', gh', p', l) -> Inv2 sh' gh' w.
+Lemma prod_inv2 : forall b i sh gh p w sh' gh' p' l, Inv2 sh gh w ->
+  prod_step b i sh gh p = Some (sh', gh', p', l) -> Inv2 sh' gh' w.
 Proof.
-  intros i sh gh p w sh' gh' p' l I H. unfold prod_step in H. destruct (p_pc p).
+  intros b i sh gh p w sh' gh' p' l I H. unfold prod_step in H. destruct (p_pc p).
   - destruct (p_prog p); [discriminate|].
-    destruct (inlog sh); [|destruct (en sh)]; injection H as <- <- <- <-; eapply inv2_frame; try exact I; reflexivity.
+    destruct (negb b && inlog sh); [|destruct (en sh)]; injection H as <- <- <- <-; eapply inv2_frame; try exact I; reflexivity.
   - destruct (lock_free sh); [|discriminate]. destruct I as [A B C D].
     destruct (LOGT_LIMIT <? mem sh + msg_total m) eqn:LT; injection H as <- <- <- <-.
     + constructor; cbn [q mem drop set_lk set_drop].
@@ -157,7 +157,7 @@ Proof.
   - destruct (worker_step b (c_sh s) (c_gh s) (c_w s)) as [[[[sh gh] w] l]|] eqn:E; [|exact I].
     cbn. eapply worker_inv2; eassumption.
   - destruct (nth_error (c_prods s) i) as [p|] eqn:Hn; [|exact I].
-    destruct (prod_step i (c_sh s) (c_gh s) p) as [[[[sh gh] p'] l]|] eqn:E; [|exact I].
+    destruct (prod_step b i (c_sh s) (c_gh s) p) as [[[[sh gh] p'] l]|] eqn:E; [|exact I].
     cbn. eapply prod_inv2; eassumption.
 Qed.
 
@@ -201,10 +201,10 @@ Qed.
 Lemma prod_ok_plog : forall i g g' p, plog g' = plog g -> prod_ok i g p -> prod_ok i g' p.
 Proof. intros i g g' p E H. unfold prod_ok, tid_seqs in *. rewrite E. exact H. Qed.
 
-Lemma prod_inv3 : forall prods i sh gh p sh' gh' p' l, Inv3 prods gh -> nth_error prods i = Some p ->
-  prod_step i sh gh p = Some (sh', gh', p', l) -> Inv3 (upd_prod prods i p') gh'.
+Lemma prod_inv3 : forall b prods i sh gh p sh' gh' p' l, Inv3 prods gh -> nth_error prods i = Some p ->
+  prod_step b i sh gh p = Some (sh', gh', p', l) -> Inv3 (upd_prod prods i p') gh'.
 Proof.
-  intros prods i sh gh p sh' gh' p' l I Hn H.
+  intros b prods i sh gh p sh' gh' p' l I Hn H.
   pose proof (I i p Hn) as (O1 & O2 & O3).
   assert (OTH : forall g2, (forall j, j <> i -> tid_seqs j g2 = tid_seqs j gh) -> prod_ok i g2 p' ->
                 Inv3 (upd_prod prods i p') g2).
@@ -214,7 +214,7 @@ Proof.
       rewrite (E j) by congruence. exact Q. }
   unfold prod_step in H. destruct (p_pc p) eqn:PC.
   - destruct (p_prog p) as [|len rest]; [discriminate|]. unfold pbound in O2. rewrite PC in O2.
-    destruct (inlog sh); [|destruct (en sh)]; injection H as <- <- <- <-; apply OTH; try (intros; reflexivity);
+    destruct (negb b && inlog sh); [|destruct (en sh)]; injection H as <- <- <- <-; apply OTH; try (intros; reflexivity);
       unfold prod_ok, pbound; cbn [p_pc p_seq m_tid m_seq]; (split; [auto|split; [|exact O3]]);
       intros x Hx; specialize (O2 x Hx); lia.
   - destruct (lock_free sh); [|discriminate]. destruct O1 as [T1 T2]. unfold pbound in O2. rewrite PC in O2.
@@ -290,7 +290,7 @@ Proof.
   - destruct (worker_step b (c_sh s) (c_gh s) (c_w s)) as [[[[sh gh] w] l]|] eqn:E; [|exact I].
     cbn. intros i p Hn. eapply prod_ok_plog; [exact (worker_plog _ _ _ _ _ _ _ _ E)|]. exact (I i p Hn).
   - destruct (nth_error (c_prods s) i) as [p|] eqn:Hn; [|exact I].
-    destruct (prod_step i (c_sh s) (c_gh s) p) as [[[[sh gh] p'] l]|] eqn:E; [|exact I].
+    destruct (prod_step b i (c_sh s) (c_gh s) p) as [[[[sh gh] p'] l]|] eqn:E; [|exact I].
     cbn. eapply prod_inv3; eassumption.
 Qed.
 
@@ -347,10 +347,11 @@ Proof. exists lost_mprog, lost_progs, lost_sched. vm_compute. repeat split; disc
 Lemma conc_close_safe_refuted : exists mprog progs sched, c_error (exec false sched (cinit mprog progs)) = true.
 Proof. exists cdw_mprog, cdw_progs, cdw_sched. vm_compute. reflexivity. Qed.
 
-(* the process-wide in_logger guard: with two producers a log call can vanish without being counted anywhere *)
+(* the process-wide in_logger guard of the code as found: with two producers a log call can vanish without being
+   counted anywhere *)
 Definition guard_progs : list (list Z) := [[20]; [30]].
-Definition guard_sched : list nat := [2; 3; 2; 2; 2; 1; 1; 1; 1; 0; 0; 0; 0; 0; 0; 1; 1; 1; 1; 0]%nat.
-Lemma conc_guard_loss : let s := exec true guard_sched (cinit [MStop] guard_progs) in
+Definition guard_sched : list nat := [2; 3; 2; 2; 2; 1; 1; 1; 1; 0; 0; 0; 0; 0; 0; 1; 1; 1; 1; 1; 0]%nat.
+Lemma conc_guard_loss : let s := exec false guard_sched (cinit [MStop] guard_progs) in
   stopped (c_gh s) = true /\ c_error s = false /\ length (guarded (c_gh s)) = 1%nat /\
   length (plog (c_gh s)) = 1%nat /\ length (written (c_gh s)) = 1%nat /\ reported (c_gh s) = [] /\ drop (c_sh s) = 0.
 Proof. vm_compute. repeat split. Qed.
